@@ -88,7 +88,7 @@ fn matcher(ins: &[POp], outs: &[PathOp], i: usize, o: usize, cursor: Option<P2>,
                     Some(PathOp::LineTo(p)) => *p,
                     other => {
                         let e = Fail { clause: "curve-end-point-not-emitted", detail: format!("input op {} ({:?}): after {} LineTo(s) the output continues with {:?} before a LineTo bit-equal to the end point ({},{}) was seen", i, ins[i], k, other, end.0, end.1), depth: i };
-                        return Err(best_err.filter(|b| b.depth > e.depth).unwrap_or(e));
+                        return Err(best_err.filter(|b| b.depth >= e.depth).unwrap_or(e));
                     }
                 };
                 k += 1;
@@ -127,7 +127,7 @@ fn matcher(ins: &[POp], outs: &[PathOp], i: usize, o: usize, cursor: Option<P2>,
                 let (d, t) = curve.first_hit(pp, tprev, 2e-3 * unit());
                 if d > 2e-3 * unit() {
                     let e = Fail { clause: "vertex-not-on-curve", detail: format!("input op {} ({:?}) with model start point ({},{}): emitted vertex ({},{}) is {:.4} away from the curve (at or after parameter {:.3})", i, ins[i], curve.start().0, curve.start().1, p.x, p.y, d, tprev), depth: i };
-                    return Err(best_err.filter(|b| b.depth > e.depth).unwrap_or(e));
+                    return Err(best_err.filter(|b| b.depth >= e.depth).unwrap_or(e));
                 }
                 tprev = t;
             }
